@@ -4,7 +4,9 @@ numberings of the two cells (C03), with the quadrature-permutation codes that ma
 Two fixed physical cells (non-affine for quadrilaterals) share an edge.  For every numbering pair the kernel produced by
 the real generators is executed (runtime/lnodes_float.py) with coordinate_dofs, vertex-based coefficient dofs, local facet
 indices and reflection codes derived from the numbering; results are mapped back to physical vertices and compared with
-the first numbering.  Bound: 2D cells (triangle, quadrilateral), degree-1 vertex-based spaces (corpus/facet_numbering.py)."""
+the first numbering.  Bound: degree-1 vertex-based spaces on triangle, quadrilateral (all 36 / 64 pairs), tetrahedron and hexahedron (150 sampled
+pairs of 576 / 2304; the aligning code is found by brute force over the codes, with FFCx's E1-verified point permutations)
+(corpus/facet_numbering.py)."""
 from __future__ import annotations
 
 import itertools
@@ -36,16 +38,30 @@ def _physical(cellname, rng):
     if cellname == "triangle":
         pos = {0: (0.0, 0.0), 1: (1.0, 0.1), 2: (0.2, 0.9), 3: (1.1, 1.2)}
         cells = [[0, 1, 2], [1, 2, 3]]
-    else:
+    elif cellname == "quadrilateral":
         # reference quad vertex order: (0,0),(1,0),(0,1),(1,1); two trapezoids sharing the edge {1, 4}
         pos = {0: (0.0, 0.0), 1: (1.0, 0.1), 2: (2.2, -0.1), 3: (-0.1, 1.0), 4: (0.8, 1.3), 5: (2.0, 0.9)}
         cells = [[0, 1, 3, 4], [1, 2, 4, 5]]
-    pos = {k: np.array(v) + 0.03 * rng.uniform(-1, 1, 2) for k, v in pos.items()}
+    elif cellname == "tetrahedron":
+        pos = {0: (0.0, 0.0, 0.0), 1: (1.0, 0.1, 0.0), 2: (0.1, 1.0, 0.1), 3: (0.2, 0.1, 1.0), 4: (0.9, 1.1, 0.9)}
+        cells = [[0, 1, 2, 3], [1, 2, 3, 4]]
+    else:
+        # hexahedron, vertex order x fastest; two distorted bricks sharing the face x = 1
+        pos, idx = {}, {}
+        for k, (z, y, x) in enumerate(itertools.product((0, 1), (0, 1), (0, 1, 2))):
+            pos[k] = (float(x) + 0.1 * y, float(y) - 0.05 * z * x, float(z) + 0.08 * x * y)
+            idx[(x, y, z)] = k
+        cells = [[idx[(x0 + dx, dy, dz)] for dz in (0, 1) for dy in (0, 1) for dx in (0, 1)] for x0 in (0, 1)]
+    pos = {k: np.array(v) + 0.03 * rng.uniform(-1, 1, len(v)) for k, v in pos.items()}
     return cells, pos
+
+
+_P1 = {}
 
 
 def _kernel(kn, seed):
     import basix
+    import basix.ufl
 
     from runtime.lnodes_float import run_kernel
 
@@ -54,6 +70,8 @@ def _kernel(kn, seed):
     cellname = dom.ufl_cell().cellname
     ct = getattr(basix.CellType, cellname)
     topo1 = basix.topology(ct)[1]
+    if cellname not in _P1:
+        _P1[cellname] = basix.create_element(basix.ElementFamily.P, ct, 1)
     rng = np.random.default_rng(seed)
     cells, pos = _physical(cellname, rng)
     shared = sorted(set(cells[0]) & set(cells[1]))
@@ -68,14 +86,52 @@ def _kernel(kn, seed):
     ext = kn.ext
     results = []
     syms = _numberings(cellname)
-    for s0, s1 in itertools.product(syms, syms):
+    tdim = len(basix.topology(ct)) - 1
+    gdim = len(next(iter(pos.values())))
+    topof = basix.topology(ct)[tdim - 1]
+    pairs = list(itertools.product(syms, syms))
+    if len(pairs) > 150:  # 576 (tetrahedron) / 2304 (hexahedron) pairs: a fixed pseudo-random sample
+        pick = rng.choice(len(pairs), 150, replace=False)
+        pairs = [pairs[i] for i in sorted(pick)]
+    refg = np.array(basix.geometry(ct), dtype=float)
+    probe = np.array([[0.13, 0.21], [0.55, 0.11], [0.2, 0.62]])[:, : tdim - 1]  # generic points of the reference facet
+
+    def facet_phys(Gs, f, Y):
+        """Physical positions of reference-facet points Y on local facet f of a cell with numbering Gs (multilinear map)."""
+        import ffcx.ir.elementtables as ET  # noqa: F401
+
+        fv = list(topof[f])
+        p0 = refg[fv[0]]
+        T = np.array([refg[fv[i]] - p0 for i in range(1, tdim)]).T
+        X = np.array([p0 + T @ y for y in Y])
+        # vertex-based (degree 1) geometry: interpolate the physical vertices with the cell's P1/Q1 basis
+        tab = _P1[cellname].tabulate(0, X)[0][:, :, 0]  # [point][vertex]
+        V = np.array([pos[Gs[i]] for i in range(len(Gs))])
+        return tab @ V
+
+    def permuted(Y, code):
+        import ffcx.ir.elementtables as ET
+
+        if tdim == 2:
+            return np.asarray(ET.permute_quadrature_interval(Y, code))
+        ref, rot = code % 2, code // 2
+        if cellname == "tetrahedron":
+            return np.asarray(ET.permute_quadrature_triangle(Y, ref, rot))
+        return np.asarray(ET.permute_quadrature_quadrilateral(Y, ref, rot))
+
+    ncodes = {2: 2, 3: 6 if cellname == "tetrahedron" else 8}[tdim]
+    for s0, s1 in pairs:
         G = [[cells[0][i] for i in s0], [cells[1][i] for i in s1]]  # local vertex -> physical vertex, per side
         facets, codes = [], []
         for side in range(2):
-            f = next(k for k, e in enumerate(topo1) if sorted(G[side][i] for i in e) == shared)
-            a = G[side][topo1[f][0]]
-            facets.append(f)
-            codes.append(0 if a == shared[0] else 1)
+            facets.append(next(k for k, e in enumerate(topof) if sorted(G[side][i] for i in e) == shared))
+        # permutation codes (A-PERM: rotations then reflection, code = 2*rot + ref) that make the points coincide:
+        # side 0 keeps code 0, side 1 takes the unique code under which its points are physically those of side 0
+        target = facet_phys(G[0], facets[0], probe)
+        ok_codes = [c for c in range(ncodes) if np.abs(facet_phys(G[1], facets[1], permuted(probe, c)) - target).max() < 1e-12]
+        if len(ok_codes) != 1:
+            raise RuntimeError(f"harness: {len(ok_codes)} permutation codes align the two sides")
+        codes = [0, ok_codes[0]]
         w = np.zeros(max(ext.ext["w"], 1))
         for ci, (lo, hi) in enumerate(ext.all_coeff_ranges):
             n = (hi - lo) // 2
@@ -86,7 +142,7 @@ def _kernel(kn, seed):
         x = np.zeros((2 * nv, 3))
         for side in range(2):
             for i in range(nv):
-                x[side * nv + i, :2] = pos[G[side][i]]
+                x[side * nv + i, :gdim] = pos[G[side][i]]
         A = np.zeros(ext.ext["A"])
         run_kernel(kn.program, A, w, np.zeros(max(ext.ext["c"], 1)), x.reshape(-1), facets, codes, False)
         # map to physical labelling: entry for (side, physical vertex, component)
